@@ -20,7 +20,6 @@ import (
 	"path/filepath"
 	"sort"
 	"strings"
-	"time"
 
 	"github.com/99designs/keyring"
 
@@ -596,13 +595,15 @@ func (s *cSession) ask(c *cache.RepoCache, order []entity.Id) *cViews {
 			v.Snaps = append(v.Snaps, cSnap{E: s.ent(id), Err: true})
 			continue
 		}
-		snap := c11Snapshot(b)
-		if snap == nil {
+		// an entity that Resolve evicted on the spot is locked for ever (any use of it blocks): it is recognised
+		// without touching it, by resolving again, which then loads another instance instead of hitting the cache
+		if b2, err2 := c.Bugs().Resolve(id); err2 != nil || b2 != b {
 			v.Snaps = append(v.Snaps, cSnap{E: s.ent(id), Hung: true})
 			s.tags["resolved-handle-locked"] = true
 			s.stop = true
 			continue
 		}
+		snap := b.Snapshot()
 		cs := cSnap{E: s.ent(id), St: int(snap.Status), Title: c11Tokens(snap.Title), Labels: c11Labels(snap.Labels), Dirty: b.NeedCommit(),
 			Comments: []cCom{}, Actors: []int{}, Parts: []int{}, AuNames: []int{}, Ops: []string{}}
 		for _, op := range snap.Operations {
@@ -621,18 +622,6 @@ func (s *cSession) ask(c *cache.RepoCache, order []entity.Id) *cViews {
 		v.Snaps = append(v.Snaps, cs)
 	}
 	return v
-}
-
-// c11Snapshot returns nil when the entity's lock is never released (an evicted entity is locked for ever).
-func c11Snapshot(b *cache.BugCache) *bug.Snapshot {
-	ch := make(chan *bug.Snapshot, 1)
-	go func() { ch <- b.Snapshot() }()
-	select {
-	case sn := <-ch:
-		return sn
-	case <-time.After(500 * time.Millisecond):
-		return nil
-	}
 }
 
 // c11Query guards against the panics of the filters (an identity excerpt that cannot be resolved).
